@@ -9,11 +9,21 @@ Every tested request is judged twice:
     the header found in the file) and the numrecs field of the header, and every addressed element must hold the
     pattern the request carried.
 
-Snapshot policy: ONE file per batch; the whole file is written with pattern A (byte 0x41+varid) at setup.  The
-snapshot taken after request i is the "before" image of request i+1.  After a request that is predicted to be an
-accepted non-empty write the tested variable is rewritten with pattern A (or, when the write grew the record
-count, the file is re-created and re-filled) and a fresh baseline snapshot is taken.  So a rejected request costs
-one snapshot, an accepted write two.
+Snapshot policy (the choice the design leaves open): one file per batch, written completely with pattern A (byte
+0x41+varid) at setup; the tested requests carry pattern B (byte 0xB0|position in the caller's buffer).
+  * A request that is predicted to be an accepted non-empty write has its own snapshot before and after; then the
+    tested variable is rewritten with pattern A (or, when the write grew the record count, a fresh file is created
+    and filled) and a new baseline snapshot is taken.
+  * Requests without a predicted effect (rejected, zero-length, reads) are checked in runs of up to GROUP
+    consecutive requests that share one snapshot (the snapshot after the run against the baseline before it); the
+    return code of every request is still checked individually.  When a run changed the file the campaign re-runs
+    its members one by one (`only`), so the reported case is the single offending tuple.  Replays (`only`) and the
+    random part use runs of length 1.
+  * Three quarters of the batches disable ROMIO's data sieving for writes (hint romio_ds_write=disable): then the
+    bytes that appear when a write extends the file must be addressed elements or read as zero (holes).  With the
+    default hints ROMIO's read-modify-write of a strided request stores arbitrary bytes into the never-written gaps
+    beyond the old end of file (MPI-IO layer, outside PnetCDF), so there only the bytes inside the old file size
+    are constrained.
 """
 import os, sys, itertools, shutil, collections, tempfile
 sys.path.insert(0, os.path.dirname(os.path.dirname(os.path.abspath(__file__))))
@@ -34,7 +44,10 @@ RULE = ("Deterministic enumeration (partitioned over workers) of (start,count,st
         "distinct case hash. `evaluations` counts tested requests (tuples).")
 ASSUMPTIONS = ["single process (MPI singleton), local POSIX file system, ROMIO as MPI-IO layer; data written through MPI-IO is visible "
                "to a POSIX copy of the file made by the same process right after the call returned",
-               "no-fill mode (the default): bytes never written read as zero when the file grows",
+               "no-fill mode (the default); bytes beyond the old end of file that a growing write does not address must read as zero "
+               "only when ROMIO data sieving is disabled (romio_ds_write=disable, 3 of 4 batches): with sieving ROMIO itself stores arbitrary "
+               "bytes into those never-written gaps",
+               "scratch files (data file + snapshots) live on /dev/shm when it is writable (4x faster than the pool's ext4 /tmp), else in the pool's scratch directory",
                "NC_ENEGATIVECNT is ranked after NC_EINVALCOORDS (DESIGN appendix B); against NC_EEDGE/NC_ESTRIDE either code is accepted; "
                "for varn the error of any failing sub-request is accepted; start/count NULL accept NC_EINVALCOORDS|NC_ENULLSTART and "
                "NC_EEDGE|NC_ENULLCOUNT (see pv/argcheck.py for every open point and its source)",
@@ -147,11 +160,11 @@ def imap_variant(iv, count):
         return None
     if iv == 1:
         return M.canonical_imap(c)
-    if iv == 2:                     # stretched: one element gap after every row
-        im, stride = [0] * nd, 1
+    if iv == 2:                     # stretched: every second memory element, one more element of gap after every row
+        im, stride = [0] * nd, 2
         for d in range(nd - 1, -1, -1):
             im[d] = stride
-            stride *= c[d] + 1
+            stride = stride * c[d] + 1
         return im
     im, stride = [0] * nd, 1        # transposed: dimension 0 varies fastest in memory
     for d in range(nd):
@@ -354,15 +367,19 @@ def build(base, reqs, group_size=1, scratch=""):
 
 
 # ====================================================================== oracle on the results
-EXCLUDE_KNOWN = True     # generator switch: leave out requests that hit a confirmed defect (probed through replays/C15)
+# Generator switch for confirmed but still unfixed defects: when True, requests that run into one are left out by
+# construction (counted as excluded_<name>) and the defect is probed through its replay in replays/C15 only.
+# The one defect this check found so far (recvar1d_stride) was fixed in /repo (164e1ad4), so the switch is off and
+# nothing is excluded; replays/C15/recvar1d-stride-wrong-offsets.json stays as a regression replay.
+EXCLUDE_KNOWN = False
 
 
 def known_defect(base, rq):
-    """name of the confirmed defect a request runs into, or None.
-    recvar1d_stride: ncmpio_filetype.c:stride_flatten() computes the offsets of a strided request on a
-    ONE-dimensional record variable with the element size instead of the record size, so put/get_vars/varm with
-    count[0] > 1 and stride[0] > 1 access the wrong file offsets whenever the file has more than one record
-    variable (replays/C15/recvar1d-stride-wrong-offsets.json)."""
+    """name of the confirmed defect a request runs into, or None (also added to the problem signature as `pattern`).
+    recvar1d_stride: ncmpio_filetype.c:stride_flatten() computed the offsets of a strided request on a
+    ONE-dimensional record variable with the element size instead of the record size, so put_vars/varm with
+    count[0] > 1 and stride[0] > 1 wrote to the wrong file offsets (padding, other variables' data) whenever the
+    file had more than one record variable."""
     if base["rec"] and len(base["lens"]) == 1 and rq["form"] in ("vars", "varm") and rq["api"] in ("put", "iput", "bput"):
         c, sd = rq.get("count"), rq.get("stride")
         if c is not None and sd is not None and c[0] > 1 and sd[0] > 1:
@@ -657,7 +674,6 @@ def varn_reps(lens):
 
 def enum_requests(case):
     """the (index, request) pairs of one enumerated batch, after the part / only filters"""
-    base = case
     lens, form, api, dom = case["lens"], case["form"], case["api"], case.get("dom", "full")
     nd = len(lens)
     is_read = api in ("get", "iget")
@@ -666,7 +682,6 @@ def enum_requests(case):
     only = case.get("only")
     only = None if only is None else set(only)
     flexsel = case.get("flex", 0)
-    mt = M.XT_NATIVE_MT[case["xt"]]
 
     def ok(s, c):
         return AC.check_box(list(lens), rec, is_read, strict, "vara", list(s), list(c), None, fmt).accepted
@@ -980,6 +995,7 @@ def run_case(ctx, case):
     stats["%s_%s" % (label, "collective" if base["coll"] else "independent")] += 1
     stats["%s_%s" % (label, "default_hints" if base.get("ds", 1) else "romio_ds_write_disable")] += 1
     if label == "rand":
+        stats["rand_requests"] += len(reqs)
         for r in reqs:
             fx = r.get("flex")
             if fx and fx.get("bt") is not None:
@@ -1096,8 +1112,9 @@ def coverage_extra(stats, tier):
     done = stats.get("enum_batches_done", 0)
     return {"exhaustive": bool(done >= total and not stats.get("enum_aborted") and not stats.get("harness_exceptions")),
             "enumerated_batches": {"expected": total, "completed": done},
-            "enumerated_tuples": stats.get("tuples", 0) - 0,
+            "enumerated_tuples": stats.get("tuples", 0) - stats.get("rand_requests", 0),
             "random_cases": stats.get("rand_batches_done", 0),
+            "random_requests": stats.get("rand_requests", 0),
             "boundary_tuples": {k: v for k, v in stats.items() if k.startswith("b_")},
             "accepted_writes_adjacent_to_other_variable": stats.get("accepted_write_adjacent_to_other_variable", 0),
             "enumerated_domain": {"plan (ndims, domain, forms, every k-th (shape,api,format,mode) combination)": enum_plan(tier),
